@@ -21,7 +21,8 @@ TITLE = 'tal:on-error'
 LEVEL = 'exploration'
 SHARDS = {'quick': 16, 'thorough': 16}
 FLOOR = {'quick': 1500, 'thorough': 20000}
-REQUIRED_MONITORS = {'model-compared': 5000, 'handled-failures': 1500}
+REQUIRED_MONITORS = {'model-compared': 5000, 'handled-failures': 1500, 'error-variable-compared': 300,
+                     'metal-shapes-compared': 300}
 RULE = ('a case = (program with on-error on a random subset of elements, depth <= 3 (quick) / 4 (thorough), binding table, '
         'failure set of 1..2 raising expression occurrences chosen among ALL occurrences incl. fallback expressions); '
         'non-trivial iff >=1 failure is raised inside an on-error element (per the model); distinct by (handler nesting '
@@ -126,6 +127,103 @@ def run(ctx):
                 key = classify(root, table, got, w, groups)
                 ctx.violation(key, 'template %r\n  table %r\n  real  %r\n  model %r' % (src, table, got, w),
                               {'kind': 'model', 'src': src, 'table': {str(k): v for k, v in table.items()}, 'model': w})
+    layer_error_variable(ctx, 30 if ctx.quick else 500)
+    layer_metal(ctx, 40 if ctx.quick else 600)
+
+
+def layer_error_variable(ctx, n):
+    """The fallback expression can read error.type / value / lineno / offset of the failure."""
+    from chameleon import PageTemplate
+    rng = ctx.rng
+    for case in range(n):
+        lead = rng.choice(['', 'x\n', 'é\n\n   ', '<b>t</b>\n\t'])
+        site = rng.choice(['${f(1)}', '<i tal:content="f(1)">c</i>', '<i tal:attributes="a f(1)">c</i>', '<i tal:condition="f(1)">c</i>',
+                           '<i tal:repeat="r f(1)">c</i>', 'a\n  b ${f(1)}'])
+        exc = rng.choice(['ZeroDivisionError', 'KeyError', 'CustomError', 'ValueError'])
+        src = lead + '<div class="k" tal:on-error="string:T=${error.type.__name__};V=${type(error.value).__name__};L=${error.lineno};O=${error.offset}">before %s after</div>!' % site
+        off = src.index('f(1)')
+        line = src.count('\n', 0, off) + 1
+        col = off - (src.rfind('\n', 0, off) + 1)
+        calls = []
+
+        def f(i, exc=exc):
+            raise tmodel.make_exc(exc, i)
+        try:
+            out = PageTemplate(src, on_error_handler=calls.append)(f=f)
+        except Exception as e:
+            out = 'RAISED %s: %s' % (type(e).__name__, str(e).split('\n')[0][:80])
+        want = lead + '<div class="k">T=%s;V=%s;L=%d;O=%d</div>!' % (exc, exc, line, col)
+        ctx.mon('error-variable-compared')
+        ctx.case(key=('errvar', site[:12], exc, bool(lead)), nontrivial=True)
+        if out != want or len(calls) != 1 or type(calls[0]).__name__ != exc:
+            ctx.violation('error-variable', 'template %r failing with %s\n  rendered %r (handler calls %r)\n  expected %r' % (
+                src, exc, out, calls, want), {'kind': 'errvar', 'src': src})
+
+
+def layer_metal(ctx, n):
+    """on-error combined with METAL and with dictionary attributes: the fallback replaces exactly the on-error element."""
+    from chameleon import PageTemplate
+    rng = ctx.rng
+    lib_src = ('<lib><m metal:define-macro="m">[${g(1)}<i metal:define-slot="s">d</i>${g(2)}]</m>'
+               '<m metal:define-macro="plain">(<i metal:define-slot="s">d</i>)</m></lib>')
+    for case in range(n):
+        shape = rng.choice(['inplace-macro', 'use-fails', 'filler-fails-outer-handler', 'handler-on-fill-slot',
+                            'handler-on-use-macro', 'dict-attributes', 'filler-fails-after-macro-expr'])
+        pre, post = rng.choice(['', 'pre ']), rng.choice(['', ' post'])
+        fb = rng.choice(['string:FB', "structure string:<b>FB</b>", 'nothing'])
+        fbtext = {'string:FB': 'FB', "structure string:<b>FB</b>": '<b>FB</b>', 'nothing': ''}[fb]
+        fail = {'g1': False, 'g2': False}
+        if shape == 'inplace-macro':
+            src = '<x>%s<div class="c" tal:on-error="%s">a<p metal:define-macro="q">b${f(1)}</p>c</div>%s</x>' % (pre, fb, post)
+            want = '<x>%s<div class="c">%s</div>%s</x>' % (pre, fbtext, post)
+        elif shape == 'use-fails':
+            fail['g1' if rng.random() < .5 else 'g2'] = True
+            src = '<x>%s<div tal:on-error="%s">a<u metal:use-macro="lib.macros[\'m\']"/>c</div>%s</x>' % (pre, fb, post)
+            want = '<x>%s<div>%s</div>%s</x>' % (pre, fbtext, post)
+        elif shape == 'filler-fails-outer-handler':
+            mac = rng.choice(['m', 'plain'])
+            src = ('<x>%s<div tal:on-error="%s">a<u metal:use-macro="lib.macros[\'%s\']"><e metal:fill-slot="s">F${f(1)}</e></u>c</div>%s</x>'
+                   % (pre, fb, mac, post))
+            want = '<x>%s<div>%s</div>%s</x>' % (pre, fbtext, post)
+        elif shape == 'filler-fails-after-macro-expr':
+            src = ('<x>%s<div tal:on-error="%s"><u metal:use-macro="lib.macros[\'m\']"><e metal:fill-slot="s">${f(1)}</e></u></div>%s</x>'
+                   % (pre, fb, post))
+            want = '<x>%s<div>%s</div>%s</x>' % (pre, fbtext, post)
+        elif shape == 'handler-on-fill-slot':
+            src = ('<x>%s<u metal:use-macro="lib.macros[\'plain\']"><e class="k" metal:fill-slot="s" tal:on-error="%s">F${f(1)}</e></u>%s</x>'
+                   % (pre, fb, post))
+            want = '<x>%s<m>(<e class="k">%s</e>)</m>%s</x>' % (pre, fbtext, post)
+        elif shape == 'handler-on-use-macro':
+            fail['g1'] = True
+            src = '<x>%s<u metal:use-macro="lib.macros[\'m\']" tal:on-error="%s"/>%s</x>' % (pre, fb, post)
+            want = '<x>%s%s%s</x>' % (pre, fbtext, post)
+        else:
+            src = '<x>%s<p a="1" tal:attributes="d" tal:on-error="%s">t${f(1)}</p>%s</x>' % (pre, fb, post)
+            want = '<x>%s<p a="1">%s</p>%s</x>' % (pre, fbtext, post)
+        calls = []
+
+        def f(i):
+            raise tmodel.Boom(i)
+
+        def g(i, fail=fail):
+            if fail['g%d' % i]:
+                raise tmodel.Boom('g%d' % i)
+            return 'G%d' % i
+        try:
+            lib = PageTemplate(lib_src)
+            out = PageTemplate(src, on_error_handler=calls.append)(f=f, g=g, lib=lib, d={'z': '9'})
+        except Exception as e:
+            out = 'RAISED %s: %s' % (type(e).__name__, str(e).split('\n')[0][:100])
+        ctx.mon('metal-shapes-compared')
+        ctx.case(key=('metal', shape, fb, bool(pre), bool(post)), nontrivial=True)
+        if out != want or len(calls) != 1:
+            key = 'on-error-with-metal:' + shape
+            if shape == 'handler-on-fill-slot' and out.startswith('RAISED Boom'):
+                key = 'on-error-on-fill-slot-element-ignored'
+            if shape == 'dict-attributes' and out.startswith("RAISED AttributeError: 'NoneType' object has no attribute '_fields'"):
+                key = 'on-error-with-dictionary-attributes-and-static-attribute-crashes-compiler'
+            ctx.violation(key, 'template %r\n  rendered %r (handler calls %d)\n  expected %r' % (src, out, len(calls), want),
+                          {'kind': 'metal', 'src': src, 'shape': shape})
 
 
 def classify(root, table, got, want, groups):
